@@ -7,6 +7,7 @@ import (
 	"go/types"
 	"math/big"
 	"strconv"
+	"strings"
 
 	"golang.org/x/tools/go/ssa"
 
@@ -554,6 +555,15 @@ func Lt(x, y *sym.Term) *sym.Term {
 // EqInt builds x == y for integers.  "z keeps only the bits of mask m" is written either `z&m == z` or `z&^m == 0`: both
 // are normalised to `0 == z & ^m`.
 func EqInt(x, y *sym.Term) *sym.Term {
+	// 0 == (a[0]^b[0]) | (a[1]^b[1]) | (a[2]^b[2]) | (a[3]^b[3]) over the four limbs of two ring elements in the same
+	// (injective) limb representation: the elements are equal
+	for _, pr := range [][2]*sym.Term{{x, y}, {y, x}} {
+		if pr[0].IsConst() && pr[0].C.Sign() == 0 {
+			if r := limbwiseEqual(pr[1]); r != nil {
+				return r
+			}
+		}
+	}
 	for _, pr := range [][2]*sym.Term{{x, y}, {y, x}} {
 		a, z := pr[0], pr[1]
 		m := intOpRe.FindStringSubmatch(a.Op)
@@ -571,6 +581,57 @@ func EqInt(x, y *sym.Term) *sym.Term {
 		}
 	}
 	return sym.Eq(x, y)
+}
+
+// limbwiseEqual recognises an OR-tree whose leaves are limb(A, i) ^ limb(B, i) for every i = 0..3 exactly once, with A
+// and B the same representation (mont_of / int_of of some sort) of two ring elements, and returns A' == B' (nil otherwise).
+func limbwiseEqual(t *sym.Term) *sym.Term {
+	var leaves []*sym.Term
+	var flat func(u *sym.Term) bool
+	flat = func(u *sym.Term) bool {
+		m := intOpRe.FindStringSubmatch(u.Op)
+		if m != nil && m[1] == "or" && len(u.Args) == 2 {
+			return flat(u.Args[0]) && flat(u.Args[1])
+		}
+		if m != nil && m[1] == "xor" && len(u.Args) == 2 {
+			leaves = append(leaves, u)
+			return true
+		}
+		return false
+	}
+	if !flat(t) || len(leaves) != 4 {
+		return nil
+	}
+	var A, B *sym.Term
+	seen := map[int64]bool{}
+	for _, l := range leaves {
+		a, b := l.Args[0], l.Args[1]
+		if a.Op != "limb" || b.Op != "limb" || len(a.Args) != 2 || len(b.Args) != 2 {
+			return nil
+		}
+		ia, oka := a.Args[1].Int64()
+		ib, okb := b.Args[1].Int64()
+		if !oka || !okb || ia != ib || ia < 0 || ia > 3 || seen[ia] {
+			return nil
+		}
+		seen[ia] = true
+		pa, pb := a.Args[0], b.Args[0]
+		if A == nil {
+			A, B = pa, pb
+		} else if !(pa == A && pb == B) {
+			if pa == B && pb == A {
+				continue
+			}
+			return nil
+		}
+	}
+	if A == nil || A.Op != B.Op || len(A.Args) != 1 || len(B.Args) != 1 {
+		return nil
+	}
+	if !(strings.HasPrefix(A.Op, "mont_of:") || strings.HasPrefix(A.Op, "int_of:")) {
+		return nil
+	}
+	return sym.Eq(A.Args[0], B.Args[0])
 }
 
 // IntOp builds a bit-level integer operation with light simplification.
